@@ -16,6 +16,7 @@ func init() {
 	for _, p := range []string{"C01", "C02", "C03", "C04", "C05", "C06", "C08", "C10"} {
 		checks[p] = checkFlatten
 	}
+	checks["FLATTEN"] = checkFlattenAll
 	replayers["flatten"] = replayFlatten
 }
 
@@ -146,12 +147,6 @@ func runFlattenCampaign(tier string, seed int64) (*flattenCampaign, error) {
 			recs = append(recs, r.Rec)
 		}
 	}
-	if err := copySpecs(scratch); err != nil {
-		return fc, err
-	}
-	if err := writeNDJSON(filepath.Join(scratch, "trace.ndjson"), recs); err != nil {
-		return fc, err
-	}
 	if len(recs) == 0 {
 		return fc, fmt.Errorf("no record to validate")
 	}
@@ -159,7 +154,7 @@ func runFlattenCampaign(tier string, seed int64) (*flattenCampaign, error) {
 	if tier == "thorough" {
 		to = 60 * time.Minute
 	}
-	fc.tlc, err = RunTLC(scratch, TLCOpts{Module: "Trace_Flatten", Workers: nWorkers(), Timeout: to, Defines: map[string]string{"K": "16"}, HeapGB: 12})
+	fc.tlc, err = RunTraceValidation(scratch, "Trace_Flatten", recs, to)
 	return fc, err
 }
 
@@ -174,15 +169,53 @@ var flattenRule = map[string]string{
 	"C10": "non-trivial: successful flatten with the analyzer state recorded",
 }
 
+var (
+	memoFC    *flattenCampaign
+	memoFCErr error
+	memoFCKey string
+)
+
+// cachedFlattenCampaign runs the campaign once per process (the FLATTEN pseudo-check reports all properties from one run).
+func cachedFlattenCampaign(tier string, seed int64) (*flattenCampaign, error) {
+	key := fmt.Sprintf("%s/%d", tier, seed)
+	if memoFCKey != key {
+		memoFC, memoFCErr = runFlattenCampaign(tier, seed)
+		memoFCKey = key
+		if memoFC != nil && os.Getenv("VERIF_KEEP") == "" {
+			os.RemoveAll(filepath.Join(memoFC.scratch, "cases-done"))
+		}
+	}
+	return memoFC, memoFCErr
+}
+
+func cleanupFlattenCampaign() {
+	if memoFC != nil && os.Getenv("VERIF_KEEP") == "" {
+		os.RemoveAll(memoFC.scratch)
+	}
+}
+
+func checkFlattenAll(_ string, tier string, seed int64) int {
+	rc := 0
+	for _, p := range []string{"C01", "C02", "C03", "C04", "C05", "C06", "C08", "C10"} {
+		if r := checkFlattenOne(p, tier, seed); r > rc {
+			rc = r
+		}
+	}
+	cleanupFlattenCampaign()
+	return rc
+}
+
 func checkFlatten(prop, tier string, seed int64) int {
+	defer cleanupFlattenCampaign()
+	return checkFlattenOne(prop, tier, seed)
+}
+
+func checkFlattenOne(prop, tier string, seed int64) int {
 	rep := NewReport(prop, tier, seed)
 	rep.Rule = "bundles: seeded random generator over W (root + 0..3 auxiliary documents in nested directories, recursive/cross-file/colliding definitions, anonymous pointers, shared objects, full name alphabet) x every option set; " + flattenRule[prop] + "; distinct by (hash of the abstract bundle, option set)"
 	rep.Assumptions = []string{"projection JSON->tree and $ref parsing in the harness (round-trip self-checked)", "TLC, SANY, CommunityModules Json",
 		"membership in W is by construction of the generator", "go-openapi/spec (ExpandSpec, loader) is the environment"}
-	fc, err := runFlattenCampaign(tier, seed)
-	if fc != nil && os.Getenv("VERIF_KEEP") == "" {
-		defer os.RemoveAll(fc.scratch)
-	}
+	fc, err := cachedFlattenCampaign(tier, seed)
 	if err != nil {
 		rep.HarnessErr = append(rep.HarnessErr, err.Error())
 		if fc != nil && fc.tlc != nil {
@@ -250,6 +283,11 @@ func checkFlatten(prop, tier string, seed int64) int {
 		}
 		sig += nameClassSig(run.c)
 		replay := run.c.SaveReplay(prop, "flatten", run.args, map[string]string{"diag.txt": strings.Join(diags[run.tid], "\n") + "\n" + r.Detail, "record.json": string(r.Rec)})
+		if run.c.Note != "" {
+			what = "[scenario " + run.c.Note + " opts " + run.args.Opts.String() + "] " + what
+		} else {
+			what = "[opts " + run.args.Opts.String() + "] " + what
+		}
 		rep.AddViolation(Violation{Prop: prop, Tid: run.tid, Sig: sig, What: what, Replay: replay})
 	}
 	rep.Extra["tlc_wall_s"] = fc.tlc.WallS
